@@ -25,3 +25,7 @@ Definition vb (b : bool) : pyval := VBool b.
 Definition okb (r : res bool) : res pyval := match r with Ok b => Ok (VBool b) | Err e => Err e end.
 Definition vnat (n : nat) : pyval := VInt (Z.of_nat n).
 Definition vopt (o : option pyval) : pyval := match o with Some v => v | None => VNone end.
+
+(* oracle pass: None = the specification gives no verdict on this case *)
+Definition oracle_pair (o : option (res pyval)) (impl : res pyval) : res pyval * res pyval :=
+  match o with Some r => (r, impl) | None => (impl, impl) end.
